@@ -315,7 +315,7 @@ def check_refusal(case):
 # ---------------------------------------------------------------- deep combs + bip86 (thorough-leaning)
 @st.composite
 def deep_case(draw):
-    return {"q": draw(st.integers(1, N - 1)), "depth": draw(st.sampled_from([1, 2, 64, 127, 128, 129])), "leaf": draw(st.integers(0, 200)), "backend": draw(st.booleans())}
+    return {"q": draw(st.integers(1, N - 1)), "depth": draw(st.sampled_from([1, 2, 64, 127, 128, 129])), "leaf": draw(st.one_of(st.sampled_from([0, -1, -2, -3]), st.integers(0, 200))), "backend": draw(st.booleans())}
 
 
 def check_deep(case):
@@ -345,12 +345,13 @@ def check_deep(case):
         want = ref.verify_control(Q, script, control)  # False for a path longer than 128
         if ok is not want:
             raise Violation(f"deep:check:lib={ok}:ref={want}", f"depth={case['depth']} leaf={i} pathlen={len(path)//32}")
-    return Outcome(True, (f"depth={case['depth']}", f"pathlen={'>128' if len(path) // 32 > 128 else '<=128'}"))
+    pl = len(path) // 32
+    return Outcome(True, (f"depth={case['depth']}", f"pathlen={'>128' if pl > 128 else '=128' if pl == 128 else '<128'}"))
 
 
 SUBCHECKS = [
     SubCheck("commitment_and_proofs", check_commit, "output key/parity, tweaked private key, merkle root and every leaf's control block vs BIP341 reference; non-trivial: >=3 leaves or unbalanced tree, or key-only with odd parity", lambda: commit_case(8), quick=500, thorough=6000),
     SubCheck("tamper", check_tamper, "one bit of control block / script / output key flipped, control truncated/extended, path elements swapped/dropped/added: verdict equals the reference and an altered proof never verifies", tamper_case, quick=800, thorough=10000),
     SubCheck("refusals", check_refusal, "internal x not on curve / >= p / wrong size refused; tweak >= n (forced through tagged_hash) refused, same on both backends", refusal_case, quick=300, thorough=3000),
-    SubCheck("deep_trees", check_deep, "comb trees of depth 1..129: output key, control block of any leaf, and the 128-element path limit", deep_case, quick=40, thorough=400),
+    SubCheck("deep_trees", check_deep, "comb trees of depth 1..129: output key, control block of any leaf, and the 128-element path limit", deep_case, quick=64, thorough=600),
 ]
